@@ -326,6 +326,83 @@ def shard_c(sh):
     return st.result([drv])
 
 
+# ---- (d) callbacks registered for a section type while instances exist
+def shard_d(sh):
+    """a validation callback registered by a path through a multi section ('m|x': the path names no instance) - whatever
+    instances exist at that moment, (1) an instance created afterwards behaves the same, (2) the existing siblings are
+    treated alike.  Callbacks are observed by behaviour: the first invocation is told to refuse."""
+    deadline = sh
+    drv = get_driver('asan')
+    drv.define_schema('B1', B1.spec())
+    st = ShardStats('registration by path with instances present')
+    regs = [('set_vf', b'm|x', b'm', b'x = 3 y = q', b''), ('set_vf2', b'm|x', b'm', b'x = 3 y = q', b''), ('set_vf', b'm|y', b'm', b'x = 3 y = q', b''),
+            ('set_vf', b'm|xl', b'm', b'xl += {4} x = 2', b''), ('set_vf', b'mt|x', b'mt', b'x = 3', b' t%d'), ('set_vf2', b'mt|x', b'mt', b'x = 3', b' t%d')]
+    priors = [('none', 0, []), ('one', 1, []), ('two', 2, []), ('three', 3, []), ('one-removed', 1, [0]), ('two-first-removed', 2, [0]),
+              ('one-worked-on', 1, 'work')]
+    for (op, path, sec, probe, title) in regs:
+        for regval in ('1', '-'):
+            ref = None
+            for (pname, n, removed) in priors:
+                lines = ['init A B1 0']
+                if regval == '-':
+                    lines.append('%s A %s 1' % (op, enc(path)))           # registered first, so that clearing it later is a change
+                for k in range(n):
+                    lines += ['cb_fail 0', 'parse_buf A ' + enc(sec + (title % k if title else b'') + b' { }')]
+                live = n
+                if removed == 'work':
+                    lines += ['cb_fail 0', 'parse_buf A/%s.0 %s' % (sec.decode(), enc(probe))]
+                else:
+                    for k in removed:
+                        lines.append('rmnsec A %s %d' % (enc(sec), k))
+                        live -= 1
+                lines += ['%s A %s %s' % (op, enc(path), regval), 'note probes', 'cb_fail 0',
+                          'parse_buf A ' + enc(sec + (title % 9 if title else b'') + b' { }')]
+                for k in list(range(live)) + [live]:
+                    if op == 'set_vf2':       # the pre-set callback is consulted by the setters only: told to veto
+                        lines += ['note sibling %d' % k, 'w_mode 1', 'setint A/%s.%d %s 3' % (sec.decode(), k, enc(b'x'))]
+                    else:
+                        lines += ['note sibling %d' % k, 'cb_fail 1', 'parse_buf A/%s.%d %s' % (sec.decode(), k, enc(probe))]
+                c = Case(lines)
+                r = drv.run([c])[0]
+                st.evaluations += 1
+                st.transitions += 1
+                st.validated += 1
+                script = 'schema B1 %s\n%s' % (B1.spec(), c.script())
+                if r.status in ('crash', 'hang'):
+                    st.violation('%s:%s' % (r.status, engine.sanitizer_summary(r.info)), script, '', engine.excerpt(r.info))
+                    continue
+                # observations of the probes: everything after the answer to the registration, cut per sibling at the parse answers
+                k0 = max(i for i, l in enumerate(r.lines) if l.startswith('r ' + op))
+                rest = [l for l in r.lines[k0 + 1:] if not l.startswith('hyg ') and not l.startswith('leak ')]
+                per, cur = [], []
+                for l in rest:
+                    cur.append(l)
+                    if l.startswith('r parse_buf') or l.startswith('r setint'):
+                        per.append(cur)
+                        cur = []
+                per = per[1:]          # the first answer is the creation of the later instance
+                if len(per) != live + 1:
+                    st.violation('protocol', script, '%d probes' % (live + 1), r.text()[-300:])
+                    continue
+                later = '\n'.join(per[-1])
+                st.outcome(later)
+                st.nontriv('%s %s %s %s' % (op, path, regval, pname))
+                if ref is None:
+                    ref = later
+                    if regval == '1' and 'r parse_buf 1' not in later and 'r setint -1' not in later:
+                        st.violation('registered-callback-not-on-later-instance', script, 'the probe is refused by the callback', later)
+                elif later != ref:
+                    st.violation('later-instance-depends-on-existing-siblings:%s' % pname, script, ref, later)
+                if removed != 'work' and any('\n'.join(x) != '\n'.join(per[0]) for x in per[:-1]):
+                    st.violation('registration-by-type-singles-out-a-sibling:%s' % pname, script, '\n'.join(per[0]), ' / '.join('\n'.join(x) for x in per[:-1]))
+        if time.time() > deadline:
+            st.complete = False
+            break
+    st.samples.append({'registration': 'cfg_set_validate_func(cfg, "m|x", cb) with 0, 1, 2, 3 instances of m present, some removed',
+                       'compared': 'behaviour of an instance created afterwards; behaviour of the existing siblings among themselves'})
+    return st.result([drv])
+
+
 def main():
     ck = engine.Check(PID)
     if ck.replay:
@@ -336,6 +413,7 @@ def main():
     dl = ck.deadline
     sids = sorted(FAM)
     engine.phase(ck, '(a) declarations freed: deep multi-section workloads, all schemas', shard_a, [(sid, 0, [()], dl) for sid in sids], schemas=len(sids))
+    engine.phase(ck, '(d) validation callbacks registered by a path through a multi section while 0..3 instances exist', shard_d, [dl])
     N = 6 if quick else 7
     shards = []
     for sid in [s.sid for s in S.family_F()] + ['D1']:
